@@ -50,6 +50,8 @@ func (c drvCfg) flow() flowInfo {
 	return flowInfo{Local: c.Local, Target: c.Target, LPort: c.LPort, TPort: c.TPort, ISN: c.ISN, IAck: c.IAck, V6: c.v6()}
 }
 
+func mustAddr(s string) netip.Addr { return netip.MustParseAddr(s) }
+
 func hx2(b []byte) string {
 	if len(b) == 0 {
 		return "-"
